@@ -317,6 +317,19 @@ def rule_d4(repo, col, memo_attrs=()):
     okx = ex is not None and any(isinstance(x, ast.Call) and dotted(x.func) == "ClauseDB" and any(k.arg == "parent" and norm(k.value) == "self" for k in x.keywords) for x in walk_no_nested(ex.node))
     col.decide("D5", m, ex.node if ex is not None else c.node, okx, "extend() creates a child database with parent=self", "extend() must return ClauseDB(parent=self, ...)",
                construct="def extend", function="ClauseDB.extend")
+    if ex is not None:
+        rets = [r for r in walk_no_nested(ex.node) if isinstance(r, ast.Return)]
+        stale = [r for r in rets if not (isinstance(r.value, ast.Call) and dotted(r.value.func) == "ClauseDB")]
+        # a returned name is fine when its only definition in extend() is the constructor call
+        for r in list(stale):
+            if isinstance(r.value, ast.Name):
+                defs = [st.value for st in walk_no_nested(ex.node) if isinstance(st, ast.Assign) and any(isinstance(t_, ast.Name) and t_.id == r.value.id for t_ in st.targets)]
+                if defs and all(isinstance(d_, ast.Call) and dotted(d_.func) == "ClauseDB" for d_ in defs):
+                    stale.remove(r)
+        col.decide("D5", m, stale[0] if stale else ex.node, bool(rets) and not stale, "every extend() call constructs a new child database",
+                   "extend() can return %s, which is not a database constructed by this call: every caller of extend() on one prepared program then works on the same child, so clauses "
+                   "added to one extension (a findall scratch clause, a query-specific rule) show up in its siblings" % (norm(stale[0].value) if stale and stale[0].value is not None else "nothing"),
+                   construct="def extend: child not constructed per call", function="ClauseDB.extend")
     # source_files decides which files consult() skips as "already loaded": it must be a private copy
     init = c.methods.get("__init__")
     sf = [st for st in walk_no_nested(init.node) if isinstance(st, ast.Assign) and norm(st.targets[0]) == "self.source_files"]
